@@ -998,9 +998,15 @@ def remap_from_lambda(
         ast.AST: Updated stream and lambda function
         Type: Return type of the lambda function, Any if not known.
     """
-    assert len(l_func.args.args) == 1
+    # The stream's item arrives in the first parameter (which may be positional-only)
+    positional_args = list(l_func.args.posonlyargs) + list(l_func.args.args)
+    if len(positional_args) != 1:
+        raise ValueError(
+            "A lambda passed to Select, SelectMany or Where must take exactly one positional "
+            f"argument - {ast.unparse(l_func)}"
+        )
     orig_type = o_stream.item_type
-    var_name = l_func.args.args[0].arg
+    var_name = positional_args[0].arg
     stream, new_body, return_type = remap_by_types(
         o_stream, known_types | {var_name: orig_type}, l_func.body
     )
